@@ -95,10 +95,9 @@ func c10GenStep(rnd *Rand, r *c10Ref) c10Step {
 			vals = append(vals, s.val)
 		}
 		return c10Step{src: v + " = [" + strings.Join(parts, ", ") + "]; probe(len(" + v + "))", run: func(r *c10Ref) interface{} {
-			if vals == nil {
-				vals = []interface{}{}
-			}
-			r.vars[v] = vals
+			exact := make([]interface{}, len(vals)) // a literal has capacity = length
+			copy(exact, vals)
+			r.vars[v] = exact
 			return int64(len(vals))
 		}}
 	case 1: // read
